@@ -77,6 +77,38 @@ CHECKS = {
             "from the operand's shape only.",
             TRUST + "; torch contraction kernels raise on incompatible operands; contraction methods of self-derived "
             "objects validate their operand.", "DESIGN.md section 3, C19"),
+    "C04": (True,
+            "CFG path enumeration with event counting (left factor) + finite-domain abstract interpretation of "
+            "orientation tags under all assignments of the boolean atoms upper / self.upper",
+            "Partial, structural: (L) on every acyclic CFG path of every solve/_inv_matmul definition on which a left "
+            "factor is given it is applied exactly once (multiplied or handed to one delegate) - dropping it or "
+            "applying it twice changes L A^-1 B; (O) every consumer of a triangular orientation "
+            "(torch.linalg.solve_triangular, torch.cholesky_solve, _cholesky_solve, Triangular/Chol/"
+            "KroneckerProductTriangular constructors; ~40 decided sites) receives upper= equal to the orientation tag "
+            "of the factor it is given, under every assignment of upper/self.upper - a mismatch makes the kernel read "
+            "the wrong triangle. NOT decided: residual accuracy, tolerance, which algorithm the size thresholds select.",
+            TRUST + "; orientation tag rules and class invariants of lo_static/orient.py.", "DESIGN.md section 3, C04"),
+    "C06": (True,
+            "finite-domain abstract interpretation of orientation tags + dead-parameter lint + producer/consumer "
+            "string-table agreement",
+            "Partial, structural: (R) cholesky(upper) and all _cholesky definitions return the requested orientation "
+            "under every assignment of upper/self.upper (else L L^T and R^T R are confused); (S) every definition "
+            "taking a spec-bearing parameter (upper, left_tensor/lhs, eigenvectors, reduce_inv_quad, logdet, dim, "
+            "alpha) reads or forwards it; (M) the method names _choose_root_method can produce are handled by both "
+            "decomposition dispatchers, which reject unknown names. NOT decided: L L^T = A, orthonormality of Q/U/V, "
+            "Krylov compressions (numerical).",
+            TRUST + "; orientation tag rules of lo_static/orient.py; reviewed exception tables.", "DESIGN.md section 3, C06"),
+    "C16": (True,
+            "typestate / must-pass-through / dominance queries on the statement CFG of utils/cholesky.py, backward "
+            "dependence closure, ownership analysis for the input",
+            "Partial, structural - the control skeleton of psd_safe_cholesky for all inputs, batch shapes and dtypes: "
+            "(W) A is never written; (I) a factor escapes only on the all-zero branch of a test of ITS OWN info codes "
+            "(documented trace_mode escape excepted); (F) exhausting the tries cannot reach a normal return and raises "
+            "NotPSDError, the NaN screen dominates the retries, every perturbation is followed by a NumericalWarning; "
+            "(D) the addend depends on info (per batch member) and is the difference new - previous jitter, defaults "
+            "come from settings.cholesky_jitter(A.dtype) / cholesky_max_tries; (U) upper transposes exactly on "
+            "request. NOT decided: that the factor is numerically the Cholesky factor of the perturbed matrix.",
+            TRUST + "; cholesky_ex info semantics.", "DESIGN.md section 3, C16"),
 }
 
 NOT_APPLICABLE = {
